@@ -97,6 +97,15 @@ def hDeps : Handler := handler fun
   | [n] => do pure (.list ((← Node.ofSExp? n).deps.map Obj.toSExp))
   | _ => none
 
+/-- `(alias_init key target|notarget)` ↦ the node `Alias(key, target)` -/
+def hAliasInit : Handler := handler fun
+  | [k, t] => do
+    let t ← match t with
+      | .sym "notarget" => some none
+      | e => (Obj.ofSExp? e).map some
+    pure (mkAlias (← Obj.ofSExp? k) t).toSExp
+  | _ => none
+
 def hLegacyRefs : Handler := handler fun
   | [keys, o] => do pure (.list ((legacyRefs (← objs? keys) (← Obj.ofSExp? o)).map Obj.toSExp))
   | _ => none
@@ -168,7 +177,7 @@ def table : List (String × Handler) :=
    ("reverse_dict", GraphDrv.hReverseDict), ("valid_order", GraphDrv.hValidOrder), ("strip_prios", GraphDrv.hStripPrios), ("strip", GraphDrv.hStrip),
    ("convert", TermDrv.hConvert), ("convert_graph", TermDrv.hConvertGraph), ("core_get", TermDrv.hCoreGet),
    ("legacy_get", TermDrv.hLegacyGet), ("eval_node", TermDrv.hEvalNode), ("deps", TermDrv.hDeps),
-   ("exec_graph", TermDrv.hExecGraph), ("legacy_refs", TermDrv.hLegacyRefs),
+   ("exec_graph", TermDrv.hExecGraph), ("legacy_refs", TermDrv.hLegacyRefs), ("alias_init", TermDrv.hAliasInit),
    ("subs", TermDrv.hSubs), ("cull", TermDrv.hCull),
    ("clone_legacy", TermDrv.hCloneLegacy), ("clone_spec", TermDrv.hCloneSpec),
    ("checkpoint_reduce", TermDrv.hCheckpointReduce)]
